@@ -43,7 +43,7 @@ func envOf(id int) map[string]any {
 	rows := []row{
 		{7, 3, 0, -4, 5, 9, 30, 4, 41, 2.5, 0.5, 0, 1.25, 8.5, "abc", "Hello", "", "42", "bob", "deep", "ann", true, false, true, true, false, []int{10, 20, 30}, []float64{1.5, 0.25}, []string{"p", "q"}},
 		{2, 11, 0, -1, 0, 16, 1, 0, 18, 0.75, 4, 0, -1.5, 0, "zed", "abc", "", "7", "Al", "mid", "x", false, true, false, false, true, []int{0, 5, 1}, []float64{0, 3}, []string{"kk", ""}},
-		{12, 12, 0, -9, 33, 1, 64, 12, 0, 10, 10, 0, 0.5, 2.75, "Mixed", "mixed", "", "100", "carol", "", "bo", true, true, false, true, true, []int{3, 3, 4}, []float64{2, 2}, []string{"a1", "a1"}},
+		{12, 12, 0, -9, 33, 1, 64, 12, 0, 10.5, 10.5, 0, 0.5, 2.75, "Mixed", "mixed", "", "100", "carol", "", "bo", true, true, false, true, true, []int{3, 3, 4}, []float64{2, 2}, []string{"a1", "a1"}},
 	}
 	r := rows[id%nEnvs]
 	return map[string]any{
